@@ -266,6 +266,17 @@ def gen_sched_cases(ctx):
             cs = scenario([a], ry, sched_json(il), tag="reload-cross-section")
             cs["policies"] = menu_y
             cases.append(cs)
+    # (8) three-way: lookup, expiry + re-delivery and a reload between a handler's lookup and its activation
+    ta, tb = mk_reg(1, 0, 1, "api", True, False), mk_reg(1, 0, 2, "detector", True, False)
+    tw = [{"kind": "sweeper", "reg": 0, "to": 1}, {"kind": "handler", "reg": 0, "to": 0}, {"kind": "reload", "reg": 0, "to": 1}]
+    base3 = [0, 0, 0, 0, 3, ("age", 0, AGES[1]), 2, 2, 2, 4, 1, 1, 1, 1, 3, 2]
+    cases.append(scenario([ta, tb], tw, sched_json(base3), tag="three-way"))
+    for _ in range(25 if quick else 400):
+        seq = list(base3)
+        for _ in range(rng.choice([1, 2])):
+            i, j = rng.randrange(3, len(seq)), rng.randrange(3, len(seq))
+            seq[i], seq[j] = seq[j], seq[i]
+        cases.append(scenario([ta, tb], tw, sched_json(seq), tag="three-way"))
     for c in (ctx.replay or {}).get("sched_cases", []):
         cases.insert(0, c)
     return cases
@@ -537,6 +548,7 @@ def oracle(ctx, c, r, idx):
             if not reloads:
                 ctx.fail("not-serializable", "final table / announcements %r are not the outcome of any serial order of the same ingests" % (got,), replay)
             elif len(c["regs"]) <= 3 and got in section_mixed_outcomes(c["regs"], reloads, pols_of(c)):
+                ctx.cov["histogram"]["sched/cross-section-witnessed"] = ctx.cov["histogram"].get("sched/cross-section-witnessed", 0) + 1
                 ctx.fail("reload-serial:cross-section/covert+phantom", "controlled schedule: final table / announcements %r are not the outcome of any "
                          "serial order of the ingests and the reload(s); every read section saw one policy in full, but the covert check "
                          "and the phantom blocklist check of one ingest ran under different configurations" % (got,), replay)
@@ -968,8 +980,14 @@ def run(ctx):
         "the code between a lock acquire and its release, and between two schedule points of one goroutine, is atomic "
         "(Go memory model); validated by executing the schedules on the real code through verifhook.Yield and by -race runs, not proved",
         "the data-race clause of the property is checked with the race detector only (stress runs, both tiers); level: proof, partial",
-        "serializability is proved for workers under a fixed policy; sweeper, handlers and reload take part in the invariants "
-        "(announce once per lifetime, visible only after validate, count, no panic) but not in that theorem",
+        "serializability of the table outcome is proved for workers, with any number of reloads whose policies judge the in-flight "
+        "registrations alike; sweeper and handlers take part in the invariants (announce once per lifetime, visible only after validate, "
+        "count, no panic) but not in that theorem",
+        "reload as an operation (ModelR): a reload is ONE policyLock write section, every policy check of an ingest ONE read section "
+        "(checked on the real code by the reload lane: outcomes under configurations that agree section by section); the whole-ingest "
+        "statement is false for the code (open findings reload-serial:cross-section/*), proved part: serializable when the policies of the "
+        "ingest's span agree section by section",
+        "domain patterns are abstracted in ModelR to the set of probe hosts they match (regular expressions are C19's subject)",
         "liveness tester, covert resolution and the detector channel are injected (scripted tester, literal addresses, recorder)",
         "one expiry sweeper goroutine (cmd/application/main.go starts exactly one)",
         "the Go in-package driver, the schedule generator and the JSON->Gallina emitter are trusted",
@@ -978,6 +996,8 @@ def run(ctx):
         "Coq 8.16.1 kernel (coqc; coqchk in the thorough tier); vm_compute evaluates the model on recorded schedules; no native_compute",
         "no axioms: every theorem prints 'Closed under the global context'",
         "hand-written model coq/C09/Model.v tied to the code by running the same schedules on the real code (verif hook) and the model",
+        "hand-written model coq/C09/ModelR.v (policy contents, read/write sections) tied to the code by the solo decision tables of the real "
+        "policy functions and by the outcomes of real ingests under real reloads (allowed set = the theorem's)",
         "atomicity of critical sections (Go memory model) is assumed; -race is the evidence",
     ]
     ctx.cov["rule"] = ("a case is one schedule executed on the real pipeline (thread steps at the Yield/probe points, ageing); "
@@ -1061,7 +1081,7 @@ def run(ctx):
         term_case.append(i)
     ctx.sample({"scenario": {"regs": [reg_json(x) for x in cases[0]["regs"]], "schedule": cases[0]["schedule"]},
                 "observed_last_step": res[0]["steps"][-1] if res[0]["steps"] else None, "events": res[0]["events"]})
-    ctx.require_kinds(["sched/publish-window", "startup/before", "startup/after", "startup/yield", "sched/pair0", "sched/pair+handler", "sched/trio", "sched/mixed", "sched/swept-in-flight", "sched/reload-window", "sched/reload-cross-section", "sched/serial-with-reload",
+    ctx.require_kinds(["sched/publish-window", "startup/before", "startup/after", "startup/yield", "sched/pair0", "sched/pair+handler", "sched/trio", "sched/mixed", "sched/swept-in-flight", "sched/reload-window", "sched/reload-cross-section", "sched/three-way", "sched/serial-with-reload",
                        "point/after-track", "point/after-covert", "point/probe", "point/end", "point/collected",
                        "point/before-remove", "point/found", "point/disabled", "sweep/removed", "ingest/duplicate",
                        "handler/activated", "distrib/idle", "distrib/busy", "distrib/overload",
